@@ -317,57 +317,8 @@ class MicrogridController(Component, Controller):
             for x in self.power_network.sections
             if x.state == SectionState.DISCONNECTED
         ]
-        for section in disconnected_sections:
-            sensors = unique(
-                [
-                    line.sensor
-                    for line in section.lines
-                    if line.sensor is not None
-                ]
-            )
-            num_fails = 0
-            need_manual_attention = False
-            # Lines without sensor must be inspected manually
-            for line in section.lines:
-                if line.sensor is None:
-                    need_manual_attention = True
-                    num_fails += 1 if line.failed else 0
-            for sensor in sensors:
-                # If no ICT network
-                if self.ict_node is None:
-                    (
-                        repair_time,
-                        line_fail_status,
-                    ) = sensor.get_line_fail_status(dt)
-                    self.sectioning_time += repair_time
-                # If both components have ICT nodes
-                elif self.ict_node is not None and sensor.ict_node is not None:
-                    # If the ICT nodes are connected to each other
-                    if is_connected(
-                        node_1=self.ict_node,
-                        node_2=sensor.ict_node,
-                        network=self.ict_network,
-                    ):
-                        (
-                            repair_time,
-                            line_fail_status,
-                        ) = sensor.get_line_fail_status(dt)
-                        self.sectioning_time += repair_time
-                    # If the ICT nodes are not connected to each other
-                    else:
-                        need_manual_attention = True
-                        line_fail_status = sensor.line.failed
-                # If no ICT node on sensor
-                else:
-                    need_manual_attention = True
-                    line_fail_status = sensor.line.failed
-                num_fails += 1 if line_fail_status else 0
-            if need_manual_attention is True:
-                self.sectioning_time += self.manual_sectioning_time
-            if num_fails == 0:
-                section.connect(dt, self)
-                if section in self.failed_sections:
-                    self.failed_sections.remove(section)
+        # Sections with failed lines are flagged first, so that a repaired
+        # section does not reconnect to a section with a failed line
         # Loop connected sections
         for section in connected_sections:
             sensors = unique(
@@ -422,6 +373,58 @@ class MicrogridController(Component, Controller):
                 self.sectioning_time += section.get_disconnect_time(dt, self)
                 self.failed_sections.append(section)
                 self.failed_sections = unique(self.failed_sections)
+        # Loop disconnected sections
+        for section in disconnected_sections:
+            sensors = unique(
+                [
+                    line.sensor
+                    for line in section.lines
+                    if line.sensor is not None
+                ]
+            )
+            num_fails = 0
+            need_manual_attention = False
+            # Lines without sensor must be inspected manually
+            for line in section.lines:
+                if line.sensor is None:
+                    need_manual_attention = True
+                    num_fails += 1 if line.failed else 0
+            for sensor in sensors:
+                # If no ICT network
+                if self.ict_node is None:
+                    (
+                        repair_time,
+                        line_fail_status,
+                    ) = sensor.get_line_fail_status(dt)
+                    self.sectioning_time += repair_time
+                # If both components have ICT nodes
+                elif self.ict_node is not None and sensor.ict_node is not None:
+                    # If the ICT nodes are connected to each other
+                    if is_connected(
+                        node_1=self.ict_node,
+                        node_2=sensor.ict_node,
+                        network=self.ict_network,
+                    ):
+                        (
+                            repair_time,
+                            line_fail_status,
+                        ) = sensor.get_line_fail_status(dt)
+                        self.sectioning_time += repair_time
+                    # If the ICT nodes are not connected to each other
+                    else:
+                        need_manual_attention = True
+                        line_fail_status = sensor.line.failed
+                # If no ICT node on sensor
+                else:
+                    need_manual_attention = True
+                    line_fail_status = sensor.line.failed
+                num_fails += 1 if line_fail_status else 0
+            if need_manual_attention is True:
+                self.sectioning_time += self.manual_sectioning_time
+            if num_fails == 0:
+                section.connect(dt, self)
+                if section in self.failed_sections:
+                    self.failed_sections.remove(section)
 
     def run_control_loop(self, curr_time: Time, dt: Time):
         """
